@@ -201,8 +201,8 @@ theorem lockPart_inv {s : State} (hi : Inv s) {t : Tid} {new : Nat} {d : LockDel
       · intro u hu; have := hi.annR u hu; rw [hrs] at this; cases this
     · cases hr
 
-theorem applyWrite_inv {s s' : State} {t : Tid} {new : Nat} (hi : Inv s)
-    (h : applyWrite s t new = .ok s') : Inv s' := by
+theorem applyWrite_inv {s s' : State} {t : Tid} {new : Nat} {ord : Ord} {rmw : Bool} (hi : Inv s)
+    (h : applyWrite s t new ord rmw = .ok s') : Inv s' := by
   unfold applyWrite at h
   simp only at h
   split at h
@@ -215,22 +215,26 @@ theorem applyWrite_inv {s s' : State} {t : Tid} {new : Nat} (hi : Inv s)
       obtain ⟨p1, p2, p3, p4, p5, p6, p7, p8⟩ := hp
       have hsd := spinDelta_spec (decode s.word) (decode new)
       split at h
-      · rename_i hsame
-        rw [hsame] at hsd
-        cases h
-        exact ⟨p1, p2, p3, p4, by simp only; rw [← hsd]; exact hi.spn, p5, p6, p7, p8⟩
-      · rename_i hset
-        rw [hset] at hsd
-        split at h
+      · cases h
+      · split at h
         · cases h
-          exact ⟨p1, p2, p3, p4, by simp [hsd.2], p5, p6, p7, p8⟩
-        · cases h
-      · rename_i hclr
-        rw [hclr] at hsd
-        split at h
-        · cases h
-          exact ⟨p1, p2, p3, p4, by simp [hsd.2], p5, p6, p7, p8⟩
-        · cases h
+        · split at h
+          · rename_i hsame
+            rw [hsame] at hsd
+            cases h
+            exact ⟨p1, p2, p3, p4, by simp only; rw [← hsd]; exact hi.spn, p5, p6, p7, p8⟩
+          · rename_i hset
+            rw [hset] at hsd
+            split at h
+            · cases h
+              exact ⟨p1, p2, p3, p4, by simp [hsd.2], p5, p6, p7, p8⟩
+            · cases h
+          · rename_i hclr
+            rw [hclr] at hsd
+            split at h
+            · cases h
+              exact ⟨p1, p2, p3, p4, by simp [hsd.2], p5, p6, p7, p8⟩
+            · cases h
 
 theorem setFn_same {α : Type} (f : Tid → α) (t : Tid) (v : α) : setFn f t v t = v := by simp [setFn]
 theorem setFn_other {α : Type} (f : Tid → α) {t u : Tid} (v : α) (h : u ≠ t) : setFn f t v u = f u := by
@@ -269,15 +273,17 @@ theorem step_inv {s s' : State} {e : Ev} (hi : Inv s) (h : step s e = .ok s') : 
   cases e with
   | ld t v => simp [step] at h; split at h <;> cases h; exact hi
   | casFail t exp obs => simp [step] at h; split at h <;> cases h; exact hi
-  | cas t exp new =>
-    simp [step] at h
+  | cas t exp new ord =>
+    simp only [step] at h
     split at h
     · exact applyWrite_inv hi h
     · cases h
-  | st t new =>
-    simp [step] at h
+  | st t new ord =>
+    simp only [step] at h
     split at h
-    · exact applyWrite_inv hi h
+    · split at h
+      · exact applyWrite_inv hi h
+      · cases h
     · cases h
   | call t c =>
     simp only [step] at h
